@@ -28,8 +28,32 @@ def main():
         mod.check(run, replay)
     except Exception as e:
         traceback.print_exc()
-        run.inconc("harness exception %s: %s" % (type(e).__name__, e))
+        lib = library_frame(e)
+        if lib is not None:
+            # an exception that escaped from the code under test on a workload that runs clean on the pinned tree: the run
+            # cannot continue, and "the operation raised" is itself the observation (like a crash of the child process)
+            run.violation("library-exception:%s:%s" % (type(e).__name__, lib[0]),
+                          "%s raised inside the code under test (%s:%d in %s) during the %s workload: %s"
+                          % (type(e).__name__, lib[0], lib[1], lib[2], prop, str(e)[:200]),
+                          dict(kind="library-exception", where="%s:%d" % (lib[0], lib[1])))
+            run.inconc("workload aborted by the exception above; remaining cases were not run")
+        else:
+            run.inconc("harness exception %s: %s" % (type(e).__name__, e))
     return run.finish()
+
+
+def library_frame(exc):
+    """(file, line, function) of the deepest traceback frame that belongs to the package under test, or None when the
+    exception was raised by the harness itself (no such frame below the last harness frame)"""
+    repo = os.path.realpath(common.REPO)
+    found, seen_lib_after_harness = None, False
+    for fr in traceback.extract_tb(exc.__traceback__):
+        fn = os.path.realpath(fr.filename)
+        if fn.startswith(os.path.join(repo, "ImageD11") + os.sep) or fn.startswith(os.path.join(repo, "scripts") + os.sep):
+            found = (os.path.relpath(fn, repo), fr.lineno, fr.name)
+        elif os.sep + "vlib" + os.sep in fn:
+            found = None                       # back in harness code (callback): judge what follows
+    return found
 
 
 if __name__ == "__main__":
